@@ -75,6 +75,7 @@ type Registry struct {
 	opaque     map[string]string // qualified named type -> opaque sort (from spec)
 	ghostVars  map[string]string // ghost variable name -> heap component
 	imm        map[string]bool   // immutable field components (functions of the reference)
+	axiomPkg   map[string]string // spec axiom text -> package path it was stated in
 }
 
 func NewRegistry() *Registry {
@@ -83,7 +84,7 @@ func NewRegistry() *Registry {
 		maps: map[string]*MapInfo{}, structs: map[string]*StructInfo{}, ptrs: map[string]*PtrInfo{},
 		sliceElems: map[string]string{}, boxes: map[string]*BoxInfo{}, strLits: map[string]string{},
 		typeSorts: map[string]string{}, ifaceImpl: map[string]*types.Interface{}, allocOf: map[string]string{},
-		pkgVars: map[string]string{}, opaque: map[string]string{}, ghostVars: map[string]string{}, imm: map[string]bool{},
+		pkgVars: map[string]string{}, opaque: map[string]string{}, ghostVars: map[string]string{}, imm: map[string]bool{}, axiomPkg: map[string]string{},
 	}
 	r.sortsDecl = append(r.sortsDecl,
 		"(declare-sort Any 0)", "(declare-sort Str 0)", "(declare-sort SRef 0)",
@@ -474,7 +475,7 @@ var ubiquitous = map[string]bool{"tag": true, "nil_Any": true, "forall": true, "
 // PreambleFor renders the global declarations and only those axioms that
 // share a non-ubiquitous symbol with the obligation (transitively). Dropping
 // an axiom only removes an assumption, so pruning is sound.
-func (r *Registry) PreambleFor(body string) string {
+func (r *Registry) PreambleFor(body string, pkgOK ...func(string) bool) string {
 	syms := map[string]bool{}
 	symbolsOf(body, syms)
 	type ax struct {
@@ -484,6 +485,9 @@ func (r *Registry) PreambleFor(body string) string {
 	}
 	var axs []*ax
 	for _, a := range r.axioms {
+		if p, ok := r.axiomPkg[a]; ok && len(pkgOK) > 0 && !pkgOK[0](p) {
+			continue // axiom of a package the obligation's package does not depend on
+		}
 		m := map[string]bool{}
 		symbolsOf(a, m)
 		axs = append(axs, &ax{text: a, syms: m})
